@@ -1193,6 +1193,11 @@ where
         prune_remotes.push(remote_id, *remote_timeout);
     }
 
+    /// Whether a later prune timeout is still pending for a remote (the one that just fired is then stale).
+    fn prune_pending(&self, remote_id: &Uuid) -> bool {
+        self.prune_remotes.is_queued(remote_id)
+    }
+
     /// Disable the agent timeout (if the stop vote has been made and not yet rescinded).
     fn disable_timeout(&mut self) {
         self.inactive_timeout.enabled = false;
@@ -1894,7 +1899,10 @@ where
                 error!("Store with ID {} failed.", item_id);
             }
             WriteTaskEvent::PruneRemote(remote_id) => {
-                state.remove_remote_if_idle(remote_id);
+                // A timeout from an earlier link-less period of the same remote: the later one decides.
+                if !streams.prune_pending(&remote_id) {
+                    state.remove_remote_if_idle(remote_id);
+                }
             }
             WriteTaskEvent::Timeout => {
                 info!(
